@@ -24,7 +24,8 @@ from vf import gen_bp
 DIST_KINDS = ("manhattan", "coord0", "table", "manhattan_f", "coord0_f",
               "table_f")
 FLOW_POWERS = (1, 2, 3, 0.5, 1.5)
-FLOAT_SCALES = (0.5, 0.1, 1.0 / 3.0, 2.5)
+# tiny scales: positive distances far below any "is zero" tolerance
+FLOAT_SCALES = (0.5, 0.1, 1.0 / 3.0, 2.5, 1e-12, 1e-30, 1e-300)
 
 
 @st.composite
